@@ -104,9 +104,10 @@ def draw_tensor_desc(d, cfg, tier, rank=None, max_rank=None, dtype=None, legs=No
     sym = cfg['sym']
     if legs is None:
         max_rank = max_rank if max_rank is not None else (4 if tier == 'quick' else 5)
-        rank = rank if rank is not None else min(max_rank, d.draw(st.sampled_from([3, 2, 4, 2, 3, 3, 1, 5, 4, 2]), label='rank'))
-        if rank > 0 and chance(d, 1, 30):
-            rank = 0
+        if rank is None:
+            rank = min(max_rank, d.draw(st.sampled_from([3, 2, 4, 2, 3, 3, 1, 5, 4, 2]), label='rank'))
+            if rank > 0 and chance(d, 1, 30):
+                rank = 0
         s = [d.draw(st.sampled_from([1, -1])) for _ in range(rank)]
         legs = [draw_table(d, sym, tier) for _ in range(rank)]
     rank = len(legs)
@@ -1898,3 +1899,41 @@ class Block:
 def to_hard_node(n):
     from .model import to_hard
     return to_hard(n)
+
+
+def draw_tree_plan(d, n, max_depth=3):
+    """Random fusion forest over n leaves (in a random order): returns (perm, trees) where trees are nodes over positions
+    0..n-1 after the permutation. Hard nodes never contain meta nodes (a hard fusion turns earlier meta fusions hard)."""
+    from .model import to_hard
+    st = _st()
+    perm = list(d.draw(st.permutations(list(range(n)))))
+    items = list(range(n))
+    for level in range(max_depth):
+        if len(items) < 2:
+            break
+        if level > 0 and chance(d, 1, 3):
+            break
+        new, i = [], 0
+        while i < len(items):
+            k = d.draw(st.sampled_from([1, 2, 2, 3, 1, 2]))
+            grp = items[i:i + k]
+            i += len(grp)
+            if len(grp) == 1:
+                new.append(grp[0])
+            else:
+                mode = d.draw(st.sampled_from(['h', 'm', 'h']))
+                if mode == 'h':
+                    grp = [to_hard(g) for g in grp]
+                new.append((mode, grp))
+        if new == items:
+            continue
+        items = new
+    return perm, items
+
+
+def plan_steps(perm, trees, lazy=True):
+    steps = []
+    if perm != sorted(perm):
+        steps.append({'op': 'transpose', 'x': -1, 'axes': perm})
+    steps += tree_build_steps(trees, -1)
+    return steps
